@@ -381,11 +381,14 @@ impl CallingConvention {
 
                 let return_type = ReturnAddressType::Register(il::scalar("lr", 32));
 
+                // At function entry r1 points to the caller's frame: the back
+                // chain word is at 0(r1), the LR save word at 4(r1), and the
+                // parameter list area starts at 8(r1).
                 CallingConvention {
                     argument_registers,
                     preserved_registers,
                     trashed_registers,
-                    stack_argument_offset: 4,
+                    stack_argument_offset: 8,
                     stack_argument_length: 4,
                     return_address_type: return_type,
                     return_register: il::scalar("r3", 32),
